@@ -7,6 +7,7 @@ Refinement lemmas: the interpreters of `EngineGen.lean`, run on the data the tra
 Every proof unfolds the *generated* terms (`simp [Generated.Eng.…]`), so a source change that alters one of them leaves
 a goal that no longer closes.
 -/
+set_option linter.unusedSimpArgs false
 namespace Pytask
 namespace EngineGen
 open Engine Generated.Eng
@@ -137,6 +138,29 @@ theorem setupChainGen_eq_of (s : Sess) (t : TaskSpec) : ∀ (names : List String
 theorem setupChainGen_eq (s : Sess) (t : TaskSpec) :
     setupChainGen P g cfg s t Generated.setupOrder = setupChain P g cfg s t Generated.setupOrder :=
   setupChainGen_eq_of s t _ (fun _ h => h)
+
+/-! ### pytask_execute_task_process_report implementations -/
+
+theorem processReportGen_eq (s : Sess) (t : TaskSpec) (r : Raised)
+    (hp : r = .persisted → (recordStates P g cfg s.w t.id).2 = true ∧ s.crashed = false) :
+    processReportGen P g cfg s t r = processReport P g cfg s t r := by
+  unfold processReportGen processReport
+  rcases hrs : recordStates P g cfg s.w t.id with ⟨w', ok⟩
+  cases r
+  case persisted =>
+    obtain ⟨h1, h2⟩ := hp rfl
+    rw [hrs] at h1
+    simp only at h1
+    subst h1
+    simp [Generated.processReportOrder, Generated.processReportOrderFirstResult, reportImpls,
+      runReportImpls, initRep, raisedToExc, reportFromTask, reportFromException, runChains, runChain, evalRTest, runRActs,
+      runRAct, isInst, excSubclass, recordStatesGen_eq, taskSet, outToOutcome, stopCmp, hrs, h2]
+  all_goals
+    cases ok <;>
+    simp [Generated.processReportOrder, Generated.processReportOrderFirstResult, reportImpls,
+      runReportImpls, initRep, raisedToExc, reportFromTask, reportFromException, runChains, runChain, evalRTest, runRActs,
+      runRAct, isInst, excSubclass, recordStatesGen_eq, taskSet, outToOutcome, stopCmp, hrs] <;>
+    (try (cases cfg.maxFail <;> rfl))
 
 end EngineGen
 end Pytask
